@@ -173,7 +173,7 @@ static void case_c02(rng_t *r, ctx_t *c) {
     int64_t need = 25 * (int64_t) nm.sample_decimate_factor;
     for (int k = 2; k <= target; ++k) need *= nm.summary_decimate_factor;
     int64_t budget = type_budget(t, c->thorough ? (24 << 20) : (3 << 20));
-    if (budget > (c->thorough ? 6000000 : 1500000)) budget = c->thorough ? 6000000 : 1500000;   /* the oracle is O(n) per request */
+    if (budget > (c->thorough ? 3000000 : 1500000)) budget = c->thorough ? 3000000 : 1500000;   /* the oracle is O(n) per request */
     int64_t n = need + rng_range(r, 0, need / 2 + nm.samples_per_data * 3);
     if (rng_chance(r, 1, 4)) n = need * 2 + rng_range(r, 0, def_level_span(&nm, 1));
     int band = 0;
